@@ -56,7 +56,7 @@ def hexDecode : Bytes → Option Bytes
     | _, _ => none
 
 /-- ASCII string literal to bytes (used for constants). -/
-def ascii (s : String) : Bytes := s.toUTF8.toList
+def ascii (s : String) : Bytes := s.toList.map (fun c => UInt8.ofNat c.toNat)
 
 def at' : UInt8 := 64   -- '@'
 
